@@ -172,3 +172,15 @@ prop("C12", lambda tier: [e1("c12", "harness/c13_reap.c", harness_flags="-DPROP_
 prop("C13", lambda tier: [e1("c13", "harness/c13_reap.c")],
      "all histories of <=2 (quick) / <=3 (thorough) create/reap cycles over reap modes {join, try-join loop, timed-join, detach, created detached by attribute} x body {returns, yields} "
      "+ detach-after-finish / racing programs, x all schedules with <= K deviations; ledger quiescence + no fresh allocation after the first cycle on one worker")
+
+prop("C03", lambda tier: [e1("c03", "harness/c03_context.c")] + ([e1("c03o2", "harness/c03_context.c", libflags="-O2 -g")] if tier == "thorough" else []),
+     "2-3 probe threads (one entered through the parent-first path) each performing a sequence over {yield, child-first create+join, parent-first create+join, contended mutex, "
+     "barrier, cond wait/signal, uncond hand-off, join of an unfinished thread} inside an assembly probe that holds patterns in rbx, rbp, r12-r15 and a 2 KiB stack array, "
+     "x all schedules with <= K deviations; library at -O0 (quick) and additionally -O2 (thorough); coverage matrix {switch kind} x {resumed on same / other worker} must be complete",
+     assumptions=E1_ASSUME + ["the 128-byte red-zone skip is exercised (the -O2 build) but not decided: it is a static obligation on the asm template, as the property itself notes"])
+prop("C20", lambda tier: [e1("c20", "harness/c20_timed.c"),
+                          binc("c20a", "engine/build_unit.sh c20a harness/c20_arith.c", "build/c20a/c20a --stats {stats} --tier quick", "build/c20a/c20a --stats {stats} --tier thorough",
+                               "E3 seqmc (bounded exhaustive inputs vs reference model)")],
+     "E1: nanosleep/usleep/sleep with a runnable sibling, timedlock against no holder / a holder yielding 1 or 3 times, timedjoin against a finished target / a target yielding 1 or 3 times, "
+     "each with deadlines {1 s past, now, now+3 ticks, now+8 ticks}, x all schedules with <= K deviations where every clock read is a decision (default +1 tick, deviation: jump 1 s); "
+     "E3: timespec_add/gt on all 900 pairs of boundary values vs 128-bit arithmetic, nanosleep argument validation on 12 classes")
